@@ -1130,7 +1130,7 @@ def r514(rep: Report, ctx: Ctx) -> None:
     from .c07 import loop_boundary_evidence
     rep.rule("R5.14", "the dummy start / end of a loop body carry the "
              "evidence of the loop's boundary (a fork that ends the body is "
-             "closed, every entry branch is drawn)", 12)
+             "closed, every entry branch is drawn)", 10)
     loop_boundary_evidence(rep, ctx, "R5.14")
 
 
